@@ -344,7 +344,8 @@ def _ev(e, env, memo):
                 shp = [x if isinstance(x, int) else _i(ev(x, env, memo)) for x in (TERM_SHAPES.get(e.get_id()) or FUNC_SHAPES[name])]
                 env["__opaque_used__"] = True
                 # the same value for the same function applied to numerically equal arguments (W(it) = W(m) when it = m)
-                h = (hash(_fingerprint(e, env, memo)) ^ int(env.get("__opaque_seed__", 0))) % (2 ** 32)
+                import zlib
+                h = (zlib.crc32(repr(_fingerprint(e, env, memo)).encode()) ^ int(env.get("__opaque_seed__", 0))) % (2 ** 32)
                 return np.random.default_rng(h).standard_normal(shp)
             else:
                 raise Unknown(f"operator {name}")
@@ -528,7 +529,7 @@ def _parse_model_value(s):
 
 def _int_assignments(hyps, ints, model, limit=40):
     """assignments of the Int/Bool constants satisfying the purely arithmetic ground hypotheses (z3), small values first"""
-    names = set(ints)
+    names = sorted(ints)
     sel = []
     for h in hyps:
         if z3.is_quantifier(h):
@@ -575,7 +576,7 @@ def _has_uf(e):
 
 
 FAMILIES = ["gauss", "ints", "scaled_small", "scaled_big", "rank1", "duprows", "zero", "zero_row", "nonneg", "conflict", "tiny",
-            "subtiny", "huge", "rowscales", "tinyrow", "offset"]
+            "subtiny", "huge", "rowscales", "tinyrow", "offset", "bigoffset"]
 
 
 def _matrix(rng, shape, fam):
@@ -599,6 +600,8 @@ def _matrix(rng, shape, fam):
         x[rng.integers(0, shape[0])] *= 10.0 ** rng.integers(-30, -12)
     elif fam == "offset":
         x = x + 10.0 ** rng.integers(2, 6)
+    elif fam == "bigoffset":
+        x = x + 1e8 * (1.0 + rng.random(shape[-1:]))   # a common component dwarfing the mutual distances of the rows
     elif fam == "scaled_big":
         x = x * 10.0 ** rng.integers(3, 9)
     elif fam == "rank1" and len(shape) == 2:
@@ -652,10 +655,24 @@ def sample_envs(consts, hyps, model, seed=0):
             dtype_names[model[n]] = "float32" if "float32" not in dtype_names.values() else (spare.pop(0) if spare else "float16")
     j = 0
     generic = assigns[: max(1, min(4, len(assigns)))]
+    # many rows (library routines switch algorithms with the size, e.g. torch.cdist beyond 25 rows)
+    bigs = []
+    for n in sorted(ints):
+        if n.endswith(".d0") and generic:
+            big = dict(generic[0])
+            big[n] = 27
+            for n2 in ints:
+                if n2 != n and not n2.endswith(".d1") and big.get(n2, 0) > 3:
+                    big[n2] = 1
+            bigs.append(big)
+            assigns.append(big)
+    schedule = [(f, a) for a in generic[:2] for f in FAMILIES]
+    schedule += [(f, b) for b in bigs for f in ("bigoffset", "rowscales", "bigoffset", "offset", "rowscales", "gauss", "bigoffset", "huge", "rowscales", "ints")]
+    schedule += [(f, a) for a in generic[2:] for f in FAMILIES]
     while True:
         # every family with each of the most generic shapes first, then all shapes
-        if j < len(FAMILIES) * len(generic):
-            fam, a = FAMILIES[j % len(FAMILIES)], generic[(j // len(FAMILIES)) % len(generic)]
+        if j < len(schedule):
+            fam, a = schedule[j]
         else:
             a = assigns[j % len(assigns)]
             fam = FAMILIES[(j // max(1, len(assigns))) % len(FAMILIES)]
